@@ -2,7 +2,7 @@ SPECIFICATION Spec
 CONSTANTS
   Modes = {"btc", "legacy", "compact"}
   Gaps = {2, 3, 4}
-  ExtraLen = 3
+  ExtraLen = 2
   Seed = 1
   NRand = 200
   KeepHist = FALSE
